@@ -474,9 +474,17 @@ func Run(tier string, seed int64, outDir string) *common.Meta {
 		if err != nil || len(pkgs) == 0 {
 			meta.Notes = append(meta.Notes, fmt.Sprintf("corpus/c15/targets not loaded: %v", err))
 		} else {
-			names := map[string]bool{"octalLiteral": true}
-			for _, g := range groups {
-				names[g] = true
+			// every API any rule of a group recommends (gated or not: a gate may have been lost)
+			recsOf := map[string]map[string]bool{}
+			names := map[string]bool{}
+			for _, e := range tab {
+				for k := range e.recs {
+					if recsOf[e.group] == nil {
+						recsOf[e.group] = map[string]bool{}
+					}
+					recsOf[e.group][k] = true
+					names[e.group] = true
+				}
 			}
 			for _, vs := range versions {
 				V := parseV(vs)
@@ -491,7 +499,7 @@ func Run(tier string, seed int64, outDir string) *common.Meta {
 					load.CheckPackage(ctx, cs, pkg, func(full string, c *linter.Checker, ws []linter.Warning) {
 						for _, w := range ws {
 							evals++
-							for api := range gated[c.Info.Name] {
+							for api := range recsOf[c.Info.Name] {
 								needle := strings.TrimPrefix(api, ".")
 								if api == "0o-literal" {
 									needle = "0o"
